@@ -61,7 +61,7 @@ def gen_history(rng, p, nsteps):
                 setters.append("l=" + v.encode().hex())
                 opts["l"] = v
             elif k == "a":
-                v = rng.choice(ACCOUNTS + [None])
+                v = rng.choice(ACCOUNTS + [None] + (["~"] if rng.random() < 0.3 else []))     # `~`: the empty string as admin
                 setters.append("a=" + (v or "-"))
                 opts["a"] = v
             elif k == "f":
